@@ -81,6 +81,7 @@ class M2XExecutor(M2Executor):
         t0 = _t.time()
         smt.beat(60.0)
         r = s.check()
+        smt.beat(0)
         return not (r == z3.unsat and (_t.time() - t0) * 1000.0 < 0.6 * self.opts.get('feasible_ms', 400))
 
     # ------------------------------------------------------------ site hooks
